@@ -118,7 +118,7 @@ def _bulk(ctx, index):
     inv = []
     for n in iter_own(f.node):
         base = None
-        if isinstance(n, ast.Subscript) and isinstance(n.value, ast.Call) and isinstance(n.value.func, ast.Attribute) and n.value.func.attr == "rpartition" and isinstance(n.value.func.value, ast.Name):
+        if isinstance(n, ast.Subscript) and isinstance(n.value, ast.Call) and isinstance(n.value.func, ast.Attribute) and n.value.func.attr in ("rpartition", "partition", "split", "rsplit") and isinstance(n.value.func.value, ast.Name):
             if n.value.args and isinstance(n.value.args[0], ast.Constant) and n.value.args[0].value == suffix:
                 base = n.value.func.value.id
         elif isinstance(n, ast.Call) and isinstance(n.func, ast.Attribute) and n.func.attr in ("removesuffix", "rstrip", "strip", "lstrip") and isinstance(n.func.value, ast.Name):
@@ -146,6 +146,11 @@ def _bulk(ctx, index):
                 why = (
                     "`{}` strips a SET of characters, not the suffix {!r}: names ending in one of those letters lose "
                     "more than the suffix and the body's schema $ref dangles".format(t, suffix)
+                )
+            elif isinstance(e, ast.Subscript) and isinstance(e.value, ast.Call) and getattr(e.value.func, "attr", "") in ("partition", "split"):
+                why = (
+                    "`{}` cuts at the FIRST {!r}, the emitters append it as a suffix: a model whose own name contains {!r} "
+                    "(`{}Metric`, `Message{}`) loses everything after it and the body's schema $ref dangles".format(t, suffix, suffix, suffix, suffix)
                 )
             else:
                 why = "`{}` is not the inverse of the emitters' template {!r}".format(t, "{name}" + suffix)
